@@ -318,7 +318,7 @@ void FnEmitter::emitYieldProbe(Vis v, const Instruction& I) {
     break;
   case VIS_CAS: {
     auto& X = cast<AtomicCmpXchgInst>(I);
-    body << "  if (vf_probe_mode && *(" << ty(X.getCompareOperand()->getType()) << "*)" << val(X.getPointerOperand())
+    body << "  if (vf_probe_mode && " << lvalue(X.getPointerOperand(), X.getCompareOperand()->getType())
          << " == " << val(X.getCompareOperand()) << ") { vf_enabled[" << k << "] = 1; return; }\n";
     break;
   }
